@@ -115,13 +115,12 @@ def step (pol : Recycle) (s : St) : Act → St
                pc := upd s.pc w (.waiting c id sl) }
     else s
   | .recvSwap c id tag =>
-    if s.closed c = false then
-      match s.pending c id with
-      | some sl =>
-        { s with pending := upd2 s.pending c id none,
-                 held := upd s.held sl (some (c, some ⟨id, tag, c⟩)) }
-      | none => s
-    else s
+    -- `readLoop` does not look at `pc.closed`: a frame read just before `conn.Close()` is still swapped
+    match s.pending c id with
+    | some sl =>
+      { s with pending := upd2 s.pending c id none,
+               held := upd s.held sl (some (c, some ⟨id, tag, c⟩)) }
+    | none => s
   | .closeSwap c id =>
     if s.closed c = true then
       match s.pending c id with
